@@ -32,6 +32,8 @@ pub struct Ref<'a> {
     pub used_auto_fields: bool,
     pub used_negative_impl: bool,
     pub size_limit: usize,
+    /// some atom was refuted by the infinite-regress rule: its proof search cannot stay within ANY size limit
+    pub unbounded_regress: bool,
 }
 
 impl<'a> Ref<'a> {
@@ -50,6 +52,7 @@ impl<'a> Ref<'a> {
             used_auto_fields: false,
             used_negative_impl: false,
             size_limit: 14,
+            unbounded_regress: false,
         }
     }
     fn tick(&mut self) -> Result<(), Budget> {
@@ -100,10 +103,21 @@ impl<'a> Ref<'a> {
         self.tick()?;
         let sz = ty.size().max(args.iter().map(|a| a.size()).max().unwrap_or(0));
         self.max_size = self.max_size.max(sz);
+        let key: Atom = (ty.clone(), tn.to_string(), args.to_vec());
         if sz > self.size_limit {
+            // the derivation keeps growing: before giving up, try to refute the atom for good by the infinite-regress
+            // rule on one of its generalisations (only without hypotheses: an assumption could make an instance true)
+            if env.is_empty() {
+                for pat in generalisations(&key) {
+                    if self.regress_false(&pat, &mut vec![], 0) {
+                        self.unbounded_regress = true;
+                        self.max_size = usize::MAX / 4;
+                        return Ok(Tv::F);
+                    }
+                }
+            }
             return Err(Budget);
         }
-        let key: Atom = (ty.clone(), tn.to_string(), args.to_vec());
         if env.contains(&key) {
             self.used_env = true;
             return Ok(Tv::T);
@@ -131,6 +145,77 @@ impl<'a> Ref<'a> {
         let r = self.atom_inner(ty, tn, args, td, env, stack);
         stack.pop();
         r
+    }
+
+    /// Infinite regress. Is the pattern (an atom of an inductive trait with variables) false for EVERY instantiation
+    /// of its variables? The complement of a least fixed point is a greatest fixed point, so the argument may be
+    /// circular: assume the pattern (and the enclosing patterns `hyps`) false; every clause whose head unifies with
+    /// the pattern must (i) match it without instantiating the pattern's variables — otherwise some instances have
+    /// a clause this argument does not see, give up — and (ii) have a body atom that is an instance of an assumed
+    /// pattern, or is ground and false by ordinary evaluation, or is refuted by the same rule. Sound by induction
+    /// on the height of a hypothetical derivation of an instance (its last clause instance has a body atom that is
+    /// again in the assumed-false set, with a smaller derivation).
+    fn regress_false(&mut self, pat: &Atom, hyps: &mut Vec<Atom>, depth: usize) -> bool {
+        self.steps += 1;
+        if depth > 3 || self.steps > self.budget {
+            return false;
+        }
+        match self.p.tr(&pat.1) {
+            Some(t) if t.kind == TraitKind::Ind => {}
+            _ => return false,
+        }
+        let instance_of = |h: &Atom, a: &Atom| -> bool {
+            let mut m = BTreeMap::new();
+            h.1 == a.1 && h.2.len() == a.2.len() && match_ty(&h.0, &a.0, &mut m) && h.2.iter().zip(a.2.iter()).all(|(x, y)| match_ty(x, y, &mut m))
+        };
+        if hyps.iter().any(|h| instance_of(h, pat)) {
+            return true;
+        }
+        let impls: Vec<ImplDecl> = self.p.impls().filter(|im| im.tr == pat.1 && im.positive).cloned().collect();
+        hyps.push(pat.clone());
+        let mut ok = true;
+        for im in &impls {
+            let ren: BTreeMap<String, Ty> = im.params.iter().map(|q| (q.clone(), Ty::Var(format!("{}'r", q)))).collect();
+            let hs = im.self_ty.subst(&ren);
+            let ha: Vec<Ty> = im.args.iter().map(|a| a.subst(&ren)).collect();
+            if ha.len() != pat.2.len() {
+                ok = false;
+                break;
+            }
+            let mut u = BTreeMap::new();
+            if !(unify_ty(&hs, &pat.0, &mut u) && ha.iter().zip(pat.2.iter()).all(|(x, y)| unify_ty(x, y, &mut u))) {
+                continue;
+            }
+            let mut m = BTreeMap::new();
+            if !(match_ty(&hs, &pat.0, &mut m) && ha.iter().zip(pat.2.iter()).all(|(x, y)| match_ty(x, y, &mut m))) {
+                ok = false;
+                break;
+            }
+            let mut refuted = false;
+            for wc in &im.wcs {
+                let w = wc.subst(&ren).subst(&m);
+                let wa: Atom = (w.ty, w.tr, w.args);
+                let sz = wa.0.size().max(wa.2.iter().map(|a| a.size()).max().unwrap_or(0));
+                if sz > 2 * self.size_limit {
+                    continue;
+                }
+                if !wa.0.has_var() && !wa.2.iter().any(|a| a.has_var()) {
+                    if let Ok(Tv::F) = self.atom(&wa.0, &wa.1, &wa.2, &BTreeSet::new(), &mut vec![]) {
+                        refuted = true;
+                        break;
+                    }
+                } else if self.regress_false(&wa, hyps, depth + 1) {
+                    refuted = true;
+                    break;
+                }
+            }
+            if !refuted {
+                ok = false;
+                break;
+            }
+        }
+        hyps.pop();
+        ok
     }
 
     fn atom_inner(&mut self, ty: &Ty, tn: &str, args: &[Ty], td: &TraitDecl, env: &BTreeSet<Atom>, stack: &mut Vec<(Atom, bool)>) -> Result<Tv, Budget> {
@@ -263,6 +348,41 @@ impl<'a> Ref<'a> {
             Goal::Exists(..) => Tv::U,
         })
     }
+}
+
+/// the atom with one subterm occurrence replaced by the variable `?g` (every position), most general first
+fn generalisations(a: &Atom) -> Vec<Atom> {
+    fn positions(t: &Ty, out: &mut Vec<Ty>, rebuild: &dyn Fn(Ty) -> Ty) {
+        out.push(rebuild(Ty::Var("?g".into())));
+        if let Ty::Adt(n, args) = t {
+            for i in 0..args.len() {
+                let f = |x: Ty| {
+                    let mut a2 = args.clone();
+                    a2[i] = x;
+                    rebuild(Ty::Adt(n.clone(), a2))
+                };
+                positions(&args[i], out, &f);
+            }
+        }
+    }
+    let mut out = vec![];
+    let mut tys = vec![];
+    positions(&a.0, &mut tys, &|x| x);
+    for t in tys {
+        out.push((t, a.1.clone(), a.2.clone()));
+    }
+    for i in 0..a.2.len() {
+        let mut tys = vec![];
+        positions(&a.2[i], &mut tys, &|x| x);
+        for t in tys {
+            let mut args = a.2.clone();
+            args[i] = t;
+            out.push((a.0.clone(), a.1.clone(), args));
+        }
+    }
+    out.sort_by_key(|p| p.0.size() + p.2.iter().map(|x| x.size()).sum::<usize>());
+    out.truncate(40);
+    out
 }
 
 /// Evaluate a closed goal. Returns the verdict and the evaluator (for its recorded facts).
